@@ -1075,7 +1075,7 @@ FAMILIES = {
     "null": Family("null", gen_sim("null"), run_sim_once, shrink_sim),
 }
 
-for _n, _sz in {"token": 1000, "leaky": 1000, "sliding": 1000, "fixed": 1000, "adaptive": 1000, "rle": 200, "inductor": 100, "dist": 75, "null": 40}.items():
+for _n, _sz in {"token": 2500, "leaky": 2000, "sliding": 2500, "fixed": 1500, "adaptive": 1250, "rle": 200, "inductor": 100, "dist": 75, "null": 40}.items():
     FAMILIES[_n].shard_size = _sz  # fewer interpreter start-ups (2.5 s each) than the runner's default sharding
 
 BUDGET = {
